@@ -176,13 +176,14 @@ pub fn to_vec<E: Elt, const N: usize>(k: &[Option<i32>; N]) -> Vec<E>
 where
     E::Inner: IKey,
 {
-    let mut v = Vec::with_capacity(N);
+    // array first, then one exact allocation + copy (no growth path of `push` for CBMC)
+    let mut a = [E::from_key(Some(0)); N];
     let mut i = 0;
     while i < N {
-        v.push(E::from_key(k[i]));
+        a[i] = E::from_key(k[i]);
         i += 1;
     }
-    v
+    a.to_vec()
 }
 
 // ---------------------------------------------------------------------------------------------
